@@ -102,7 +102,7 @@ var c03Fillers = map[string]bool{
 func init() {
 	Register(&Prop{
 		ID:   "C03",
-		Expl: "For every implementation of swap.Wallet.Create{Preimage,Csv,Coop}SpendingTransaction (found by interface satisfaction: 3 back-ends × 3 paths) and with every value resolved context-sensitively through in-module helpers, decides: (R1) the outpoint index given to wire.NewOutPoint / transaction.NewTxInput comes only from an output locator (GetVoutAndVerify / FindVout / VoutFromTxHex) — never a constant, zero value or parameter — and that locator, as well as the outpoint's transaction hash, is applied to ClaimParams.OpeningTxHex of the call's own ClaimParams and to the call's own OpeningParams (directly or through ParamsToTxScript); (R2) the witness stored into the input is built by the constructor of the matching path with the signature of the right signer in each role (own ClaimParams.Signer; for coop the taker signer argument first, own signer second), the preimage from ClaimParams.Preimage, the script from ParamsToTxScript on the call's OpeningParams, and the input sequence is 0 / lock-time-disabled on the preimage and coop paths and, on the CSV path, comes from exactly the source that feeds the csv argument of that ParamsToTxScript call; (R3) every signature signs the result of the sighash call whose script argument is that same ParamsToTxScript result, with SIGHASH_ALL, input 0, and as amount OpeningParams.Amount (Bitcoin) / the value commitment of the located output (Liquid); (R4) the Bitcoin spend adds exactly one output and the Liquid spend one payee plus one explicit fee output with an empty script, outside loops, and the payee script derives only from a wallet address call, constants and the back-end's own configuration; (R5) wherever the locator's index is used, the locator's error result has been tested and — when the locator can return verdict=false together with a nil error — its boolean verdict as well (a wrapper that returns index and error together is followed to its callers); (R6) sibling agreement with the validator: on every success return of a Bitcoin output locator the reported index is the position, in the outputs of the transaction argument, of an output that was selected under BOTH `out.Value == int64(params.Amount)` and equality of its PkScript with a script derived from ParamsToTxScript(params, …) — the selection ValidateTx makes and the amount the builders sign for. A deviation is reported as a violation only when every source involved was interpreted; an uninterpreted helper, library call or shape ends in 'cannot decide'.",
+		Expl: "For every implementation of swap.Wallet.Create{Preimage,Csv,Coop}SpendingTransaction (found by interface satisfaction: 3 back-ends × 3 paths) and with every value resolved context-sensitively through in-module helpers, decides: (R1) the outpoint index given to wire.NewOutPoint / transaction.NewTxInput comes only from an output locator (GetVoutAndVerify / FindVout / VoutFromTxHex) — never a constant, zero value or parameter — and that locator, as well as the outpoint's transaction hash, is applied to ClaimParams.OpeningTxHex of the call's own ClaimParams and to the call's own OpeningParams (directly or through ParamsToTxScript); (R2) the witness stored into the input is built by the constructor of the matching path with the signature of the right signer in each role (own ClaimParams.Signer; for coop the taker signer argument first, own signer second), the preimage from ClaimParams.Preimage, the script from ParamsToTxScript on the call's OpeningParams, and the input sequence is 0 / lock-time-disabled on the preimage and coop paths and, on the CSV path, comes from exactly the source that feeds the csv argument of that ParamsToTxScript call; (R3) every signature signs the result of the sighash call whose script argument is that same ParamsToTxScript result, with SIGHASH_ALL, input 0, and as amount OpeningParams.Amount (Bitcoin) / the value commitment of the located output (Liquid); (R4) the Bitcoin spend adds exactly one output and the Liquid spend one payee plus one explicit fee output with an empty script, outside loops, and the payee script derives only from a wallet address call, constants and the back-end's own configuration; (R5) wherever the locator's index is used, the locator's error result has been tested and — when the locator can return verdict=false together with a nil error — its boolean verdict as well (a wrapper that returns index and error together is followed to its callers); (R7) the transaction into which each builder puts its input (AddTxIn / AddInput / a store to the input list) is created with a constant version >= 2 — a violation on the CSV path, where OP_CHECKSEQUENCEVERIFY needs it; objects that are only deserialisation targets do not count; (R6) sibling agreement with the validator: on every success return of a Bitcoin output locator the reported index is the position, in the outputs of the transaction argument, of an output that was selected under BOTH `out.Value == int64(params.Amount)` and equality of its PkScript with a script derived from ParamsToTxScript(params, …) — the selection ValidateTx makes and the amount the builders sign for. A deviation is reported as a violation only when every source involved was interpreted; an uninterpreted helper, library call or shape ends in 'cannot decide'.",
 		NotD: "Consensus validity of the built transaction, signature correctness, that the CSV has elapsed when the refund is broadcast, fee size (including the constant 200 sat that BitcoinOnChain.PrepareSpendingTransaction subtracts in addition to the fee), blinding arithmetic of the Liquid output.",
 		Run:  runC03,
 	})
@@ -852,6 +852,7 @@ func runC03(c *an.Check) {
 	c.Rule("C03.R3", "each signature signs the sighash computed over the witness script with SIGHASH_ALL, input 0 and OpeningParams.Amount (Bitcoin) / the located output's value commitment (Liquid)")
 	c.Rule("C03.R4", "exactly one payee output (plus the explicit Liquid fee output), outside loops, whose script derives from a wallet address call")
 	c.Rule("C03.R6", "sibling agreement with the validator: on every success return of a Bitcoin output locator the returned index is that of an output selected under BOTH `out.Value == params.Amount` and equality of its script with the script derived from ParamsToTxScript(params, …) — the selection ValidateTx makes (C01.R6) and the amount the builders sign for (R3)")
+	c.Rule("C03.R7", "the transaction object that receives the spending input is created with a constant version >= 2 (BIP68/BIP112: OP_CHECKSEQUENCEVERIFY fails in a version-1 transaction, so every CSV refund would be invalid); wire.NewMsgTx(v) / &wire.MsgTx{Version: v} and transaction.NewTx(v) / &transaction.Transaction{Version: v} alike")
 	c.Rule("C03.R5", "the index of a locator is only used after its error — and, if verdict=false can come with a nil error, its verdict — has been tested")
 	w := c.W
 
@@ -953,6 +954,7 @@ func runC03(c *an.Check) {
 	c.AtLeast("C03.R4", "implementations with resolved outputs", n4, 9)
 	c03R5(c, r5order, r5sites, nLocImpl)
 	c03R6(c, tr, scriptParamsIdx)
+	c03R7(c, impls)
 }
 
 // ---------------------------------------------------------------------------------
@@ -2534,4 +2536,143 @@ func c03R6(c *an.Check, tr *c03Tracer, scriptParamsIdx int) {
 		}
 	}
 	c.AtLeast("C03.R6", "success returns of Bitcoin output locators", nRet, 1)
+}
+
+// ---------------------------------------------------------------------------------
+// R7: version of the spending transaction
+
+const (
+	c03AddTxIn  = "func:(*" + c03Wire + ".MsgTx).AddTxIn"
+	c03AddInput = "func:(*" + c03ElemTx + ".Transaction).AddInput"
+	c03NewTx    = "func:" + c03ElemTx + ".NewTx"
+)
+
+func c03R7(c *an.Check, impls []*c03Impl) {
+	w := c.W
+	btcSites, liqSites := map[ssa.Value]bool{}, map[ssa.Value]bool{}
+	for _, m := range impls {
+		cons := m.name(w) + " spend tx version"
+		// the transaction values that receive an input
+		type recv struct {
+			v   ssa.Value
+			fr  *c03Frame
+			pos token.Pos
+		}
+		var recvs []recv
+		for _, s := range m.callsIn(w, c03AddTxIn, c03AddInput) {
+			cc := s.in.(*ssa.Call)
+			if len(cc.Call.Args) >= 1 {
+				recvs = append(recvs, recv{cc.Call.Args[0], s.fr, cc.Pos()})
+			}
+		}
+		for _, s := range m.storesIn(c03Wire+".MsgTx.TxIn", c03ElemTx+".Transaction.Inputs") {
+			st := s.in.(*ssa.Store)
+			recvs = append(recvs, recv{st.Addr.(*ssa.FieldAddr).X, s.fr, st.Pos()})
+		}
+		if len(recvs) == 0 {
+			c.Unknown("C03.R7", cons, w.Pos(m.fn.Pos()), "no AddTxIn / AddInput call and no store to an input list is reached from this implementation")
+			continue
+		}
+		bad, unknown, okDetail := "", "", ""
+		var pos token.Pos
+		for _, rc := range recvs {
+			pos = rc.pos
+			set := m.tr.Trace(rc.v, rc.fr)
+			if len(set.Leaves) == 0 {
+				unknown = "the transaction that receives the input has no sources"
+				continue
+			}
+			for _, l := range set.Leaves {
+				var version ssa.Value
+				vfr := l.Fr
+				missing := false
+				switch {
+				case l.Kind == "call" && (l.Name == c03NewMsgTx || l.Name == c03NewTx) && len(l.Call.Call.Args) == 1:
+					version = l.Call.Call.Args[0]
+					if l.Name == c03NewMsgTx {
+						btcSites[l.Call] = true
+					} else {
+						liqSites[l.Call] = true
+					}
+					pos = l.Call.Pos()
+				case l.Kind == "alloc":
+					al, ok := l.Val.(*ssa.Alloc)
+					if !ok {
+						unknown = "the transaction that receives the input is " + l.String()
+						continue
+					}
+					isBtc := strings.Contains(types.TypeString(al.Type(), nil), c03Wire+".MsgTx")
+					isLiq := strings.Contains(types.TypeString(al.Type(), nil), c03ElemTx+".Transaction")
+					if !isBtc && !isLiq {
+						unknown = "the transaction that receives the input is " + l.String()
+						continue
+					}
+					vals := append(c03LiteralField(al, c03Wire+".MsgTx.Version"), c03LiteralField(al, c03ElemTx+".Transaction.Version")...)
+					if isBtc {
+						btcSites[al] = true
+					} else {
+						liqSites[al] = true
+					}
+					pos = al.Pos()
+					switch len(vals) {
+					case 0:
+						missing = true
+					case 1:
+						version = vals[0]
+					default:
+						unknown = "the version of the spending transaction is assigned more than once"
+						continue
+					}
+				default:
+					unknown = "the transaction that receives the input is created by " + l.String() + ", neither the library constructor nor a struct literal"
+					continue
+				}
+				verdict, got := "bad", "0 (the literal leaves Version unset)"
+				if !missing {
+					vs := m.tr.Trace(version, vfr)
+					verdict = "ok"
+					if len(vs.Leaves) == 0 || len(vs.OpsBeyond("convert:")) > 0 {
+						verdict = "unknown"
+					}
+					var names []string
+					for _, vl := range vs.Leaves {
+						n, isInt := an.ConstInt(vl.Val)
+						switch {
+						case vl.Kind != "const" || !isInt:
+							verdict = "unknown"
+						case n < 2 && verdict == "ok":
+							verdict = "bad"
+						}
+						names = append(names, vl.String())
+					}
+					got = strings.Join(names, ", ")
+				}
+				switch verdict {
+				case "unknown":
+					unknown = "the version of the spending transaction is not a compile-time constant: " + got
+				case "bad":
+					if m.kind == "Csv" {
+						bad = "the CSV refund is built as a version " + got + " transaction: BIP68/BIP112 give the input sequence its relative-lock-time meaning only for version >= 2, OP_CHECKSEQUENCEVERIFY fails otherwise, so the maker can never take the refund path"
+					} else {
+						okDetail = "version " + got + " (no OP_CHECKSEQUENCEVERIFY is executed on the " + m.kind + " path; harmless here, see the Csv builder of this back-end)"
+					}
+				default:
+					if okDetail == "" {
+						okDetail = "version " + got
+					}
+				}
+			}
+		}
+		p := w.Pos(pos)
+		switch {
+		case bad != "":
+			c.Bad("C03.R7", cons, p, bad)
+		case unknown != "":
+			c.Unknown("C03.R7", cons, p, unknown)
+		default:
+			c.OK("C03.R7", cons, p, okDetail)
+		}
+	}
+	c.AtLeast("C03.R7", "Bitcoin spend-transaction creation sites", len(btcSites), 1)
+	c.AtLeast("C03.R7", "Liquid spend-transaction creation sites", len(liqSites), 1)
 }
